@@ -165,6 +165,11 @@ fn ser_named_type(ty: &OwnedDataModelType, value: &Value, out: &mut Vec<u8>) -> 
         OwnedDataModelType::String | OwnedDataModelType::Char => {
             let val = value.as_str().right()?;
 
+            // a char is a string holding exactly one scalar value
+            if *ty == OwnedDataModelType::Char && val.chars().count() != 1 {
+                return Err(Error::SchemaMismatch);
+            }
+
             // First add len
             let len = val.len();
             let mut buf = [0u8; varint_max::<usize>()];
